@@ -14,7 +14,8 @@ RULE = ("A case is (protocol version, operation under test: LAN.send / LAN.authe
         "nibble at each phase, valid V3 envelope around a non-V2 payload, truncations, random bytes; optionally "
         "followed by the honest message, optional segmentation). Part 'catalogue' enumerates the mutation "
         "catalogue x phase x operation; 'random' draws parameters. Distinct = distinct plan; non-trivial = a hostile "
-        "message was delivered to the client.")
+        "message was delivered to the client."
+        " Later additions: hostile bytes arriving 0.5-3.3 s late, intact packets with surplus bytes behind them ('v2_trailing'), floods of 40-2500 packets.")
 ASSUMPTIONS = [
     "allowed outcomes: LAN level = list of frames | ProtocolError (incl. AuthenticationError) | TimeoutError; "
     "device level = refresh returns normally, authenticate raises only AuthenticationError",
